@@ -189,7 +189,7 @@ func Cases(progs []*gj5s.Case) []*gpb.Case {
 				if len(root.Fields) > 0 {
 					under = root.Fields[0]
 				}
-				out = append(out, &gpb.Case{ID: "j5s/" + pc.ID + "/" + decl.Name, Coord: "j5s|" + pc.Coord, Schema: s, Under: under, Holder: root})
+				out = append(out, &gpb.Case{ID: "j5s/" + pc.ID + "/" + f.Package() + "." + decl.Name, Coord: "j5s|" + pc.Coord, Schema: s, Under: under, Holder: root})
 			}
 		}
 	}
